@@ -7,7 +7,8 @@
    tasks go where does not matter for the property.  Every inserted task is returned exactly once.
    `hist` = the operations, handed to the replay harness (which skips an insert of a task still in a heap). *)
 EXTENDS Naturals, Integers, Sequences, FiniteSets, TLC, Json
-CONSTANTS Items, Prio, MaxHeaps, MaxLen
+CONSTANTS Items, Prio, MaxHeaps, MaxLen,
+          InsHeaps    \* handles the behaviours insert into (1..MaxHeaps, or {1} to grow one large heap that is then split)
 VARIABLES heaps, nh, hist
 vars == <<heaps, nh, hist>>
 
@@ -26,7 +27,7 @@ RightSize(n) == n - 1 - LeftSize(n)
 
 Init == heaps = [h \in H |-> {}] /\ nh = 1 /\ hist = <<>>
 \* handle 1 exists from the start; heap_create is implicit in the first insert into an empty handle
-Insert(h, x) == /\ Len(hist) < MaxLen /\ h \in 1..nh /\ x \in Items \ InHeaps
+Insert(h, x) == /\ Len(hist) < MaxLen /\ h \in 1..nh /\ h \in InsHeaps /\ x \in Items \ InHeaps
                 /\ heaps' = [heaps EXCEPT ![h] = @ \cup {x}]
                 /\ hist' = Append(hist, [op |-> "ins", h |-> h, x |-> x])
                 /\ UNCHANGED nh
